@@ -21,6 +21,8 @@ from .run import resolve_target
 
 
 def to_value(v):
+    if isinstance(v, dict) and "obj" in v:
+        return ("__obj__", v["obj"], v.get("attrs", {}))
     if isinstance(v, dict) and "array" in v:
         data = v["array"]
         two = bool(data) and isinstance(data[0], list) or v.get("ndim") == 2
@@ -96,6 +98,10 @@ def run_one(target, args, kwargs):
     vals = [to_value(a) for a in args]
     try:
         f, owner, mod = resolve_target(I, target)
+        for k, v in enumerate(vals):
+            if isinstance(v, tuple) and len(v) == 3 and v[0] == "__obj__":
+                # instance of a class of the target module with the given attributes
+                vals[k] = Obj(mod.ns[v[1]], {a: to_value(x) for a, x in v[2].items()})
         res = I.call(f, vals, {k: to_value(v) for k, v in kwargs.items()})
         out = {"outcome": "return", "value": from_value(res)}
     except Raised as r:
